@@ -116,7 +116,24 @@ func realDiff(a, b *RealResult) string {
 	return ""
 }
 
+type c05RealRepeat struct {
+	RealRepeat int `json:"real_repeat"`
+}
+
 func judgeC05(c *Ctx, sc *Scenario) *Violation {
+	if sc.Real && len(sc.Extra) > 0 {
+		var rr c05RealRepeat
+		if json.Unmarshal(sc.Extra, &rr) == nil && rr.RealRepeat > 1 {
+			r0 := RunReal(c.B.FcOff, sc, c.Work)
+			for i := 1; i < rr.RealRepeat; i++ {
+				if d := realDiff(r0, RunReal(c.B.FcOff, sc, c.Work)); d != "" {
+					return &Violation{Class: "uncontrolled", Signature: "uncontrolled-nondeterminism:real-directory",
+						Detail: fmt.Sprintf("the shipped fc run %d times on identical fresh copies of one directory leaves different results (run %d vs run 0): %s", rr.RealRepeat, i, d)}
+				}
+			}
+			return nil
+		}
+	}
 	if sc.Real {
 		newer := sc.Clone()
 		newer.Disk.OutputsOlder = false
@@ -235,6 +252,8 @@ type c05Item struct {
 	run       int
 	nsPerTick int64
 	env       []string
+	faults    []Fault  // a failing output device: the same fault in the identity run this run is compared with
+	dirs      []string // ... or a directory where an output file should go
 }
 
 func checkC05(tier string) {
@@ -347,6 +366,18 @@ func checkC05(tier string) {
 			if j%3 == 1 {
 				it.nsPerTick = []int64{1000, 1_000_000, 50_000_000}[pr.Intn(3)]
 			}
+			// a failing output device is part of "the same files": which outputs exist afterwards (and the decision)
+			// must still not depend on the enumeration order. Only for invocations that write two or more files.
+			if outs := sortedKeys(ids[i].Written()); len(outs) >= 2 && j%4 == 3 {
+				switch pr.Intn(3) {
+				case 0:
+					it.faults = []Fault{{Op: "write", Nth: 1 + pr.Intn(len(outs)), Kind: "error"}}
+				case 1:
+					it.faults = []Fault{{Op: "write", Nth: 1 + pr.Intn(len(outs)), Kind: "enospc", After: pr.Intn(200)}}
+				default:
+					it.dirs = []string{outs[pr.Intn(len(outs))]}
+				}
+			}
 			if j%3 == 2 {
 				pool := []string{"HOME=/nonexistent/home", "USER=someone", "LANG=ja_JP.UTF-8", "LC_ALL=C", "TZ=Asia/Tokyo", "TMPDIR=/nonexistent/tmp",
 					"TERM=dumb", "NO_COLOR=1", "DEBUG=1", "VERBOSE=1", "FC_DEBUG=1", "FOLANG_PATH=/nonexistent", "GOPATH=/nonexistent/go", "PWD=/nonexistent/pwd"}
@@ -382,8 +413,25 @@ func checkC05(tier string) {
 		if len(it.env) > 0 {
 			c.count("fault_fired:environment_varied", 1)
 		}
-		r1 := c.sim(c.B.FcVerif, sc)
 		r0 := ids[progIndex[it.prog]]
+		if len(it.faults) > 0 || len(it.dirs) > 0 {
+			sc.Faults = it.faults
+			sc.Disk.Dirs = append(sc.Disk.Dirs, it.dirs...)
+			id := sc.Clone()
+			id.Enum = EnumSched{Mode: "identity"}
+			id.NsPerTick, id.Env = 0, nil
+			r0 = c.sim(c.B.FcVerif, id)
+			failed := 0
+			for _, w := range r0.Writes() {
+				if !w.Ok {
+					failed++
+				}
+			}
+			if failed > 0 {
+				c.count("fault_fired:write_failure_in_multi_output_invocation", 1)
+			}
+		}
+		r1 := c.sim(c.B.FcVerif, sc)
 		if r1.PermutedPoints() > 0 && c.markDistinct("pair:"+sc.Hash()+"|"+r1.EnumTraceHash()) {
 			c.count("distinct_nontrivial", 1)
 		}
@@ -578,6 +626,40 @@ func checkC05(tier string) {
 			unexplained = append(unexplained, plan[ro.i].p.Name+": "+ro.msg)
 		}
 	}
+	// the shipped binary twice on identical fresh copies of a directory in which one output cannot be written
+	// (a directory sits where it should go): what is left behind must be the same both times. Run-to-run
+	// variation on an error path (temporary names, partial state) does not pass through pkg/dict or the
+	// simulated disk, so only this leg sees it.
+	c.phase("shipped binary, unwritable output, repeated")
+	var rrProgs []int
+	for i, pl := range plan {
+		if len(pl.p.Outputs) > 0 && (i%5 == 2 || !strings.HasPrefix(pl.p.Name, "gen:")) {
+			rrProgs = append(rrProgs, i)
+		}
+	}
+	rrOuts := parallel(c, len(rrProgs), func(k int) outcome {
+		i := rrProgs[k]
+		sc := plan[i].p.scenario("C05", c.Seed, i)
+		outsP := plan[i].p.Outputs
+		sc.Disk.Dirs = append(sc.Disk.Dirs, filepath.Clean(outsP[k%len(outsP)]))
+		sc.Real = true
+		x, _ := json.Marshal(c05RealRepeat{RealRepeat: 3})
+		sc.Extra = x
+		c.count("shipped_binary_unwritable_output_repeats", 1)
+		return outcome{sc, judgeC05(c, sc)}
+	}, nil)
+	for _, o := range rrOuts {
+		if o.v != nil && !seenSig[o.v.Signature] {
+			seenSig[o.v.Signature] = true
+			small := shrinkProgram(c, o.sc, o.v.Class, judgeC05)
+			if nv := judgeC05(c, small); nv != nil && nv.Class == o.v.Class {
+				o.sc, o.v = small, nv
+			}
+			if c.report(o.sc, o.v, judgeC05, nil) {
+				violations++
+			}
+		}
+	}
 	if len(unexplained) > 0 && violations == 0 {
 		harnessFail("shipped binary disagrees with the simulated identity run and no schedule explains it (seam fidelity): %v", unexplained)
 	}
@@ -589,7 +671,7 @@ func checkC05(tier string) {
 			"programs_accepted_identity":     accepted,
 			"schedule_styles":                enumStyles,
 			"shipped_binary_observation":     "tag-off uninstrumented fc on a real directory under Go's own map randomisation, compared with the simulated identity run; observation only, the deciding step is the schedule search",
-			"fault_kinds_injected":           "no I/O fault (C05 is the fault-free configuration). Environment dimensions that are scheduled: dictionary enumeration order (every seeded run), speed of the simulated wall clock (a third of the seeded runs: 1e3, 1e6 or 5e7 ns per step; dormant while fc reads no clock), process environment (a third: random subset of 14 variables); counts under counters fault_fired:*",
+			"fault_kinds_injected":           "write faults in a quarter of the seeded runs of invocations with two or more outputs (failed open, ENOSPC after n bytes, directory in the place of an output), the same fault in the identity run compared with; the shipped binary 3x on fresh copies of a directory with an unwritable output. Environment dimensions that are scheduled: dictionary enumeration order (every seeded run), speed of the simulated wall clock (a third of the seeded runs: 1e3, 1e6 or 5e7 ns per step; dormant while fc reads no clock), process environment (a third: random subset of 14 variables); counts under counters fault_fired:*",
 			"tick_budget_per_child":          c05Budget,
 			"simulated_time_covered_ticks":   c.TotalTicks,
 		},
